@@ -16,6 +16,15 @@ impl Queue {
         ensures *final(self) == *old(self),
             r is Ok ==> (forall |k: Ident| running(*old(self)).contains(k) <==> exists |i: int| 0 <= i < r->Ok_0@.len() && *#[trigger] r->Ok_0@[i] == k)
     { unimplemented!() }
+    /// the other re-queueing entry point of the queue: moves only the running entries that are older than the time-out
+    /// (some subset of the running entries; which ones depends on the clock)
+    #[verifier::external_body]
+    pub fn reschedule_long_running_tasks(&mut self, reschedule_after: Option<Duration>) -> (r: Result<(), QueueError>)
+        ensures
+            running(*final(self)).subset_of(running(*old(self))),
+            forall |k: Ident| pending(*old(self)).contains(k) ==> pending(*final(self)).contains(k),
+            forall |k: Ident| running(*old(self)).contains(k) && !running(*final(self)).contains(k) ==> pending(*final(self)).contains(k),
+    { unimplemented!() }
     #[verifier::external_body]
     pub fn reschedule_running_task(&mut self, storage_key: &Ident, timestamp_millis: Option<u128>) -> (r: Result<(), QueueError>)
         ensures
@@ -24,6 +33,8 @@ impl Queue {
     { unimplemented!() }
 }
 pub assume_specification [Task::name] (t: &Task) -> (r: Box<Ident>) ensures t is QueueStartTasks ==> *r == qstart_name();
+// (the function is verified with loop_isolation(false): what is known about locals bound before the loop -- here the name of the
+//  QueueStartTasks task, whatever the local is called -- stays known inside it, so the contract names no local)
 impl vstd::std_specs::cmp::PartialEqSpecImpl for Ident {
     open spec fn obeys_eq_spec() -> bool { true }
     open spec fn eq_spec(&self, other: &Ident) -> bool { *self == *other }
@@ -43,6 +54,7 @@ def build():
     U.opaque('Ident', 'PartialEq')
     U.opaque('Queue', '')
     U.opaque('QueueError', '')
+    U.opaque('Duration', '')
     U.opaque('Error', '')
     U.outside('''
 pub type KrillResult<T> = Result<T, Error>;
@@ -54,11 +66,10 @@ impl Task { pub fn name(&self) -> Box<Ident> { unimplemented!() } }
     U.struct(MQ, 'TaskQueue', derive=[])
     U.add(SPEC)
     U.impl('impl TaskQueue', [
-        U.fn(MQ, 'TaskQueue', 'reschedule_tasks_at_startup', mut_self=True, ensures=[
+        U.fn(MQ, 'TaskQueue', 'reschedule_tasks_at_startup', mut_self=True, attrs=['#[verifier::loop_isolation(false)]'], ensures=[
             ('nothing_left_running', 'r is Ok ==> forall |k: Ident| running(final(self).q).contains(k) ==> k == qstart_name()'),
             ('every_running_task_requeued', 'r is Ok ==> forall |k: Ident| running(old(self).q).contains(k) && k != qstart_name() ==> pending(final(self).q).contains(k)'),
         ], loops={0: {'iter': 'vx_it', 'invariant': [
-            ('name', '*queue_started_key_name == qstart_name()'),
             ('keys', 'forall |k: Ident| running(old(self).q).contains(k) <==> exists |i: int| 0 <= i < vx_it.seq().len() && *#[trigger] vx_it.seq()[i] == k'),
             ('remaining_running_are_to_come', '''forall |k: Ident| running(self.q).contains(k) ==> k == qstart_name()
                 || exists |i: int| vx_it.index@ <= i < vx_it.seq().len() && *#[trigger] vx_it.seq()[i] == k'''),
